@@ -116,6 +116,9 @@ def _model(case, ctx):
                 nc=int(rng.integers(3, 8)), nt=int(rng.integers(2, 6)), ns=int(rng.integers(8, 40)),
                 dtype_ind=['int32', 'uint32', 'int64'][int(rng.integers(0, 3))],
                 clusters=['same', 'curated'][int(rng.integers(0, 2))])
+    opts.update(dtype_amps=['float64', 'float32'][int(rng.integers(0, 2))],
+                dtype_templates=['float32', 'float32', 'float64'][int(rng.integers(0, 3))],
+                dtype_feat=['float32', 'float64'][int(rng.integers(0, 2))])
     spec = random_spec(rng, **opts)
     d = scratch_dir('c06_')
     desc = {'seed': case['seed'], 'opts': opts}
